@@ -95,6 +95,8 @@ func appPkgs() []appPkg {
 }
 
 func tryDec(f func() error) (st string) {
+	cases.Begin("application-layer UnmarshalBinary [reuse]", nil)
+	defer cases.End()
 	defer func() {
 		if r := recover(); r != nil {
 			st = "panic"
